@@ -3297,6 +3297,11 @@ Box<ITV>
   }
   // Add the constraint implied by the `lb_expr' and `ub_expr'.
   refine_with_constraint(lb_expr <= ub_expr);
+  // No point of the box may be left: its image is empty
+  // (and the interval of `var' must not be rebuilt below).
+  if (is_empty()) {
+    return;
+  }
 
   // Check whether `var' occurs in `lb_expr' and/or `ub_expr'.
   if (lb_expr.coefficient(var) == 0) {
